@@ -1,1 +1,723 @@
-(** Proofs/CmdProofs.v — placeholder, to be written. *)
+(** Proofs/CmdProofs.v — lemmas about Model/Cmd.v (property C17).
+
+    Part 1: the serial runner equals a one-level loop over (command, run-instruction) pairs
+            and that loop runs exactly the prefix up to the first non-zero exit.
+    Part 2: the concurrent machine reaches, under EVERY schedule, the state in which each
+            task slot holds its own run-to-completion: confluence by a per-slot invariant
+            ([finish]) plus a decreasing measure ([total_work]).
+    Part 3: the schedule-free reading of the observation (started set, MultiError, cmdOut). *)
+From PV Require Import Cmd.
+From Coq Require Import Lia PeanoNat.
+Import ListNotations.
+Open Scope string_scope.
+Open Scope list_scope.
+
+(** * Specification vocabulary (used in the statements of Props/C17.v) *)
+
+(** the prefix of [l] up to and including the first command that does not exit 0 *)
+Fixpoint upto_bad (orc : oracle) (l : list string) : list string :=
+  match l with
+  | [] => []
+  | c :: r => if exit_zero orc c then c :: upto_bad orc r else [c]
+  end.
+
+Definition all_zero (orc : oracle) (l : list string) : Prop :=
+  forallb (exit_zero orc) l = true.
+
+(** serial steps: (owning Command, run instruction) in declaration order *)
+Definition spairs (ks : list scmd) : list (scmd * string) :=
+  flat_map (fun k => map (pair k) (run_list (sc_run k))) ks.
+
+Fixpoint upto_bad_p (orc : oracle) (l : list (scmd * string)) : list (scmd * string) :=
+  match l with
+  | [] => []
+  | p :: r => if exit_zero orc (snd p) then p :: upto_bad_p orc r else [p]
+  end.
+
+(** what a run instruction contributes to cmdOut: its result when its Command saves and the
+    process could be spawned — whatever the exit code *)
+Definition saved (orc : oracle) (shell : bool) (p : scmd * string) : list res1 :=
+  match orc (snd p) with
+  | Exited rc o e =>
+      if sc_save (fst p) then [sync_result shell (sc_text (fst p)) (snd p) rc o e] else []
+  | SpawnFail _ _ => []
+  end.
+
+Definition failure (orc : oracle) (shell : bool) (p : scmd * string) : option perr :=
+  match orc (snd p) with
+  | SpawnFail n m => Some (PExn n m)
+  | Exited rc o e =>
+      if Z.eqb rc 0 then None
+      else Some (sync_error shell (sc_save (fst p)) (sc_text (fst p)) (snd p) rc o e)
+  end.
+
+Fixpoint first_failure (orc : oracle) (shell : bool) (l : list (scmd * string)) : option perr :=
+  match l with
+  | [] => None
+  | p :: r => match failure orc shell p with Some e => Some e | None => first_failure orc shell r end
+  end.
+
+(** concurrent steps: (owning Command, top-level entry) in declaration order *)
+Definition aentries (ks : list acmd) : list (acmd * aentry) :=
+  flat_map (fun k => map (pair k) (entries k)) ks.
+
+Definition entry_head (e : aentry) : list string :=
+  match entry_cmds e with [] => [] | c :: _ => [c] end.
+
+(** the error a started command contributes to the aggregate *)
+Definition afailure (orc : oracle) (shell : bool) (k : acmd) (c : string) : list perr :=
+  match orc c with
+  | SpawnFail n m => [PExn n m]
+  | Exited rc o e =>
+      if Z.eqb rc 0 then []
+      else [PErr "pypyr.errors.SubprocessError" (async_args shell c) rc
+                 (async_stream (ac_save k) (ac_text k) o) (async_stream (ac_save k) (ac_text k) e)]
+  end.
+
+(** the result object of one started command *)
+Definition aresult (orc : oracle) (shell : bool) (k : acmd) (c : string) : res1 :=
+  match orc c with
+  | SpawnFail n m => X1 n m
+  | Exited rc o e => async_result shell (ac_save k) (ac_text k) c rc o e
+  end.
+
+(** one top-level entry's element of cmdOut: results of the commands it ran, in order *)
+Definition entry_out (orc : oracle) (shell : bool) (k : acmd) (e : aentry) : rentry :=
+  match e with
+  | AOne c => EOne (aresult orc shell k c)
+  | ASer l => ESer (map (aresult orc shell k) (upto_bad orc l))
+  end.
+
+Definition all_failures (orc : oracle) (shell : bool) (ks : list acmd) : list perr :=
+  flat_map (fun p => flat_map (afailure orc shell (fst p)) (upto_bad orc (entry_cmds (snd p))))
+           (aentries ks).
+
+(** * Part 1 — serial *)
+Section SerialProofs.
+  Variable orc : oracle.
+  Variable shell : bool.
+
+  Fixpoint run_pairs (l : list (scmd * string)) : list string * list res1 * option perr :=
+    match l with
+    | [] => ([], [], None)
+    | p :: r =>
+        let '(rs, er) := run1 orc shell (fst p) (snd p) in
+        match er with
+        | Some e => ([snd p], rs, Some e)
+        | None => let '(st, rs', er') := run_pairs r in (snd p :: st, rs ++ rs', er')
+        end
+    end.
+
+  Lemma run_strs_pairs k cs : run_strs orc shell k cs = run_pairs (map (pair k) cs).
+  Proof.
+    induction cs as [|c r IH]; [reflexivity|].
+    cbn [run_strs map run_pairs fst snd]. rewrite IH. reflexivity.
+  Qed.
+
+  Lemma run_pairs_app l1 l2 :
+    run_pairs (l1 ++ l2) =
+    let '(st, rs, er) := run_pairs l1 in
+    match er with
+    | Some e => (st, rs, Some e)
+    | None => let '(st', rs', er') := run_pairs l2 in (st ++ st', rs ++ rs', er')
+    end.
+  Proof.
+    induction l1 as [|p r IH].
+    - cbn. destruct (run_pairs l2) as [[st rs] er]. reflexivity.
+    - cbn [app run_pairs]. destruct (run1 orc shell (fst p) (snd p)) as [rs [e|]]; [reflexivity|].
+      rewrite IH. destruct (run_pairs r) as [[st rs'] [e|]]; [reflexivity|].
+      destruct (run_pairs l2) as [[st' rs''] er']. cbn. rewrite app_assoc. reflexivity.
+  Qed.
+
+  Lemma run_cmds_pairs ks : run_cmds orc shell ks = run_pairs (spairs ks).
+  Proof.
+    induction ks as [|k r IH]; [reflexivity|].
+    cbn [run_cmds spairs flat_map]. rewrite run_pairs_app, run_strs_pairs.
+    destruct (run_pairs (map (pair k) (run_list (sc_run k)))) as [[st rs] [e|]]; [reflexivity|].
+    fold (spairs r). rewrite IH. reflexivity.
+  Qed.
+
+  Lemma run1_spec k c : run1 orc shell k c = (saved orc shell (k, c), failure orc shell (k, c)).
+  Proof.
+    unfold run1, saved, failure. cbn [fst snd]. destruct (orc c); reflexivity.
+  Qed.
+
+  Lemma failure_none_iff p : failure orc shell p = None <-> exit_zero orc (snd p) = true.
+  Proof.
+    unfold failure, exit_zero. destruct (orc (snd p)) as [rc o e|n m].
+    - destruct (Z.eqb rc 0); split; congruence.
+    - split; congruence.
+  Qed.
+
+  Lemma run_pairs_spec l :
+    run_pairs l = (map snd (upto_bad_p orc l), flat_map (saved orc shell) (upto_bad_p orc l),
+                   first_failure orc shell l).
+  Proof.
+    induction l as [|[k c] r IH]; [reflexivity|].
+    cbn [run_pairs fst snd upto_bad_p first_failure]. rewrite run1_spec.
+    destruct (failure orc shell (k, c)) as [e|] eqn:F.
+    - assert (Z : exit_zero orc c = false).
+      { destruct (exit_zero orc c) eqn:Z; [|reflexivity].
+        apply (failure_none_iff (k, c)) in Z. congruence. }
+      rewrite Z. cbn. rewrite app_nil_r. reflexivity.
+    - apply failure_none_iff in F. cbn [snd] in F. rewrite F, IH. reflexivity.
+  Qed.
+
+  Lemma map_snd_upto_bad_p l : map snd (upto_bad_p orc l) = upto_bad orc (map snd l).
+  Proof.
+    induction l as [|p r IH]; [reflexivity|].
+    cbn [upto_bad_p map upto_bad]. destruct (exit_zero orc (snd p)); cbn; [rewrite IH|]; reflexivity.
+  Qed.
+
+  Lemma map_snd_spairs ks : map snd (spairs ks) = flat_map (fun k => run_list (sc_run k)) ks.
+  Proof.
+    induction ks as [|k r IH]; [reflexivity|].
+    cbn [spairs flat_map]. rewrite map_app, map_map. cbn [snd]. rewrite map_id.
+    fold (spairs r). rewrite IH. reflexivity.
+  Qed.
+
+  Lemma first_failure_none_iff l :
+    first_failure orc shell l = None <-> forallb (exit_zero orc) (map snd l) = true.
+  Proof.
+    induction l as [|p r IH]; [cbn; tauto|].
+    cbn [first_failure map forallb].
+    destruct (failure orc shell p) as [e|] eqn:F.
+    - split; [discriminate|]. intro H. apply andb_prop in H. destruct H as [H _].
+      apply failure_none_iff in H. congruence.
+    - apply failure_none_iff in F. rewrite F. cbn. exact IH.
+  Qed.
+
+  Lemma first_failure_split pre p post :
+    forallb (exit_zero orc) (map snd pre) = true ->
+    first_failure orc shell (pre ++ p :: post) =
+    match failure orc shell p with Some e => Some e | None => first_failure orc shell post end.
+  Proof.
+    induction pre as [|q r IH]; intro H; [reflexivity|].
+    cbn [map forallb] in H. apply andb_prop in H. destruct H as [H1 H2].
+    cbn [app first_failure]. apply failure_none_iff in H1. rewrite H1. auto.
+  Qed.
+
+  (** the observation of the serial step, in closed form *)
+  Lemma run_sync_spec cf :
+    run_sync orc shell cf =
+    let l := spairs (sync_commands cf) in
+    mkObs (upto_bad orc (sconf_cmds cf)) []
+          (match first_failure orc shell l with None => NoError | Some e => Raised e end)
+          (sync_cmdout (flat_map (saved orc shell) (upto_bad_p orc l))).
+  Proof.
+    unfold run_sync. rewrite run_cmds_pairs, run_pairs_spec.
+    rewrite map_snd_upto_bad_p, map_snd_spairs. reflexivity.
+  Qed.
+End SerialProofs.
+
+Lemma forallb_upto_bad orc l :
+  forallb (exit_zero orc) (upto_bad orc l) = forallb (exit_zero orc) l.
+Proof.
+  induction l as [|c r IH]; [reflexivity|].
+  cbn [upto_bad forallb]. destruct (exit_zero orc c) eqn:Z; cbn; rewrite Z; [rewrite IH|]; reflexivity.
+Qed.
+
+Lemma upto_bad_all orc l : all_zero orc l -> upto_bad orc l = l.
+Proof.
+  unfold all_zero. induction l as [|c r IH]; intro H; [reflexivity|].
+  cbn [forallb] in H. apply andb_prop in H. destruct H as [H1 H2].
+  cbn [upto_bad]. rewrite H1, IH; auto.
+Qed.
+
+Lemma upto_bad_split orc pre c post :
+  all_zero orc pre -> exit_zero orc c = false ->
+  upto_bad orc (pre ++ c :: post) = pre ++ [c].
+Proof.
+  unfold all_zero. induction pre as [|q r IH]; intros H Z.
+  - cbn. rewrite Z. reflexivity.
+  - cbn [forallb] in H. apply andb_prop in H. destruct H as [H1 H2].
+    cbn [app upto_bad]. rewrite H1, IH; auto.
+Qed.
+
+Lemma upto_bad_prefix orc l : exists post, l = upto_bad orc l ++ post.
+Proof.
+  induction l as [|c r [post IH]]; [exists []; reflexivity|].
+  cbn [upto_bad]. destruct (exit_zero orc c).
+  - exists post. cbn. f_equal. exact IH.
+  - exists r. reflexivity.
+Qed.
+
+(** ** The serial theorems *)
+Lemma serial_ok_iff_ran_all_zero orc shell cf :
+  ob_err (run_sync orc shell cf) = NoError <->
+  all_zero orc (ob_started (run_sync orc shell cf)).
+Proof.
+  rewrite run_sync_spec. cbn [ob_err ob_started]. unfold all_zero.
+  rewrite forallb_upto_bad. unfold sconf_cmds. rewrite <- map_snd_spairs.
+  rewrite <- (first_failure_none_iff orc shell).
+  destruct (first_failure orc shell (spairs (sync_commands cf))); split; congruence.
+Qed.
+
+Lemma serial_ok_iff_declared_all_zero orc shell cf :
+  ob_err (run_sync orc shell cf) = NoError <-> all_zero orc (sconf_cmds cf).
+Proof.
+  rewrite serial_ok_iff_ran_all_zero. rewrite run_sync_spec. cbn [ob_started].
+  unfold all_zero. rewrite forallb_upto_bad. tauto.
+Qed.
+
+Lemma serial_started_is_prefix orc shell cf :
+  ob_started (run_sync orc shell cf) = upto_bad orc (sconf_cmds cf).
+Proof. rewrite run_sync_spec. reflexivity. Qed.
+
+Lemma serial_all_zero_runs_all orc shell cf :
+  all_zero orc (sconf_cmds cf) -> ob_started (run_sync orc shell cf) = sconf_cmds cf.
+Proof. intro H. rewrite serial_started_is_prefix. apply upto_bad_all, H. Qed.
+
+Lemma serial_stops_at_first orc shell cf pre c post :
+  sconf_cmds cf = pre ++ c :: post -> all_zero orc pre -> exit_zero orc c = false ->
+  ob_started (run_sync orc shell cf) = pre ++ [c].
+Proof.
+  intros E H Z. rewrite serial_started_is_prefix, E. apply upto_bad_split; assumption.
+Qed.
+
+Lemma serial_error_of_first orc shell cf pre c post :
+  sconf_cmds cf = pre ++ c :: post -> all_zero orc pre -> exit_zero orc c = false ->
+  exists k, In k (sync_commands cf) /\ In c (run_list (sc_run k)) /\
+            exists e, failure orc shell (k, c) = Some e /\
+                      ob_err (run_sync orc shell cf) = Raised e.
+Proof.
+  intros E H Z. rewrite run_sync_spec. cbn [ob_err].
+  unfold sconf_cmds in E. rewrite <- map_snd_spairs in E.
+  apply map_eq_app in E. destruct E as (lpre & l2 & E & Epre & E2).
+  apply map_eq_cons in E2. destruct E2 as ([k c'] & lpost & E2 & Ec & _).
+  cbn [snd] in Ec. subst c' l2.
+  assert (Hin : In (k, c) (spairs (sync_commands cf))).
+  { rewrite E. apply in_or_app. right. left. reflexivity. }
+  unfold spairs in Hin. apply in_flat_map in Hin. destruct Hin as (k' & Hk & Hc).
+  apply in_map_iff in Hc. destruct Hc as (c'' & Hp & Hc). inversion Hp; subst k' c''.
+  exists k. split; [exact Hk|]. split; [exact Hc|].
+  rewrite E, first_failure_split by (rewrite Epre; exact H).
+  destruct (failure orc shell (k, c)) as [e|] eqn:F.
+  - exists e. split; reflexivity.
+  - apply failure_none_iff in F. cbn [snd] in F. congruence.
+Qed.
+
+Lemma serial_error_carries orc shell cf pre c post rc o e :
+  sconf_cmds cf = pre ++ c :: post -> all_zero orc pre ->
+  orc c = Exited rc o e -> rc <> 0%Z ->
+  exists so se, ob_err (run_sync orc shell cf) =
+                Raised (PErr "subprocess.CalledProcessError" (sync_args shell c) rc so se).
+Proof.
+  intros E H O N.
+  assert (Z : exit_zero orc c = false).
+  { unfold exit_zero. rewrite O. apply Z.eqb_neq, N. }
+  destruct (serial_error_of_first orc shell cf pre c post E H Z) as (k & _ & _ & x & F & R).
+  unfold failure in F. cbn [fst snd] in F. rewrite O in F.
+  apply Z.eqb_neq in N. rewrite N in F. inversion F; subst x.
+  unfold sync_error in R. eauto.
+Qed.
+
+Lemma serial_spawn_error orc shell cf pre c post n m :
+  sconf_cmds cf = pre ++ c :: post -> all_zero orc pre -> orc c = SpawnFail n m ->
+  ob_err (run_sync orc shell cf) = Raised (PExn n m).
+Proof.
+  intros E H O.
+  assert (Z : exit_zero orc c = false) by (unfold exit_zero; rewrite O; reflexivity).
+  destruct (serial_error_of_first orc shell cf pre c post E H Z) as (k & _ & _ & x & F & R).
+  unfold failure in F. cbn [snd] in F. rewrite O in F. inversion F; subst x. exact R.
+Qed.
+
+Lemma serial_cmdout orc shell cf :
+  ob_out (run_sync orc shell cf) =
+  sync_cmdout (flat_map (saved orc shell) (upto_bad_p orc (spairs (sync_commands cf)))).
+Proof. rewrite run_sync_spec. reflexivity. Qed.
+
+(** * Part 2 — the concurrent machine is confluent *)
+Section MachineProofs.
+  Variable orc : oracle.
+  Variable shell : bool.
+
+  (** a task run to completion on its own: results of the commands it starts, in order *)
+  Fixpoint ser_spec (save text : bool) (cs : list string) : list (string * res1) :=
+    match cs with
+    | [] => []
+    | c :: r =>
+        match orc c with
+        | SpawnFail n m => [(c, X1 n m)]
+        | Exited rc o e =>
+            (c, async_result shell save text c rc o e)
+              :: (if Z.eqb rc 0 then ser_spec save text r else [])
+        end
+    end.
+
+  Definition slot_final (s : slot) : list (string * res1) :=
+    sl_done s ++ match sl_cur s with
+                 | None => []
+                 | Some c => ser_spec (sl_save s) (sl_text s) (c :: sl_rest s)
+                 end.
+
+  (** where the slot ends up, whatever happens around it *)
+  Definition finish (s : slot) : slot := finished s (slot_final s).
+
+  (** a task that awaits nothing has nothing left to start *)
+  Definition wf (s : slot) : Prop := sl_cur s = None -> sl_rest s = [].
+
+  Lemma finish_idle s : wf s -> sl_cur s = None -> finish s = s.
+  Proof.
+    destruct s as [sv tx se d cu re]. unfold wf, finish, finished, slot_final. cbn.
+    intros W C. subst cu. rewrite (W eq_refl), app_nil_r. reflexivity.
+  Qed.
+
+  Lemma begin_wf s d cs : wf (begin orc s d cs).
+  Proof.
+    unfold begin, wf. destruct cs as [|c r]; [reflexivity|].
+    destruct (orc c); cbn; [discriminate|reflexivity].
+  Qed.
+
+  Lemma begin_finish s d cs :
+    finish (begin orc s d cs) = finished s (d ++ ser_spec (sl_save s) (sl_text s) cs).
+  Proof.
+    unfold begin, finish, finished, slot_final. destruct cs as [|c r]; cbn.
+    - rewrite app_nil_r. reflexivity.
+    - destruct (orc c) eqn:O; cbn; rewrite ?O, ?app_nil_r; reflexivity.
+  Qed.
+
+  Lemma begin_work s d cs : (slot_work (begin orc s d cs) <= List.length cs)%nat.
+  Proof.
+    unfold begin, slot_work. destruct cs as [|c r]; cbn; [lia|].
+    destruct (orc c); cbn; lia.
+  Qed.
+
+  Lemma complete_wf s : wf s -> wf (complete orc shell s).
+  Proof.
+    intro W. unfold complete. destruct (sl_cur s) as [c|] eqn:C; [|exact W].
+    destruct (orc c) as [rc o e|n m].
+    - destruct (Z.eqb rc 0); [apply begin_wf|intro; reflexivity].
+    - intro; reflexivity.
+  Qed.
+
+  Lemma complete_finish s : finish (complete orc shell s) = finish s.
+  Proof.
+    unfold complete. destruct (sl_cur s) as [c|] eqn:C; [|reflexivity].
+    unfold finish at 2. unfold slot_final. rewrite C. cbn [ser_spec].
+    destruct (orc c) as [rc o e|n m].
+    - destruct (Z.eqb rc 0).
+      + rewrite begin_finish. rewrite <- app_assoc. reflexivity.
+      + unfold finish, finished, slot_final. cbn. rewrite app_nil_r. reflexivity.
+    - unfold finish, finished, slot_final. cbn. rewrite app_nil_r. reflexivity.
+  Qed.
+
+  Lemma complete_work s :
+    is_running s = true -> (slot_work (complete orc shell s) < slot_work s)%nat.
+  Proof.
+    unfold is_running, complete. destruct (sl_cur s) as [c|] eqn:C; [intros _|discriminate].
+    unfold slot_work at 2. rewrite C.
+    destruct (orc c) as [rc o e|n m].
+    - destruct (Z.eqb rc 0).
+      + pose proof (begin_work s (sl_done s ++ [(c, async_result shell (sl_save s) (sl_text s) c rc o e)])
+                               (sl_rest s)). lia.
+      + cbn. lia.
+    - cbn. lia.
+  Qed.
+
+  Lemma idle_work s : is_running s = false -> slot_work s = O.
+  Proof. unfold is_running, slot_work. destruct (sl_cur s); [discriminate|reflexivity]. Qed.
+
+  Lemma running_work s : is_running s = true -> (0 < slot_work s)%nat.
+  Proof. unfold is_running, slot_work. destruct (sl_cur s); [lia|discriminate]. Qed.
+
+  Lemma n_running_cons s r :
+    n_running (s :: r) = ((if is_running s then 1 else 0) + n_running r)%nat.
+  Proof. unfold n_running. cbn [filter]. destruct (is_running s); reflexivity. Qed.
+
+  Lemma complete_nth_props sls : forall k,
+    Forall wf sls -> (k < n_running sls)%nat ->
+    Forall wf (complete_nth orc shell k sls)
+    /\ map finish (complete_nth orc shell k sls) = map finish sls
+    /\ (total_work (complete_nth orc shell k sls) < total_work sls)%nat.
+  Proof.
+    induction sls as [|s r IH]; intros k W K.
+    - cbn in K. lia.
+    - inversion W as [|? ? Ws Wr]; subst. rewrite n_running_cons in K.
+      cbn [complete_nth]. destruct (is_running s) eqn:R.
+      + destruct k as [|k'].
+        * split; [constructor; [apply complete_wf, Ws|exact Wr]|].
+          split; [cbn [map]; rewrite complete_finish; reflexivity|].
+          cbn [total_work fold_right]. pose proof (complete_work s R). lia.
+        * destruct (IH k' Wr) as (A & B & C); [lia|].
+          split; [constructor; assumption|].
+          split; [cbn [map]; rewrite B; reflexivity|].
+          cbn [total_work fold_right]. fold (total_work r).
+          fold (total_work (complete_nth orc shell k' r)). lia.
+      + destruct (IH k Wr) as (A & B & C); [lia|].
+        split; [constructor; assumption|].
+        split; [cbn [map]; rewrite B; reflexivity|].
+        cbn [total_work fold_right]. fold (total_work r).
+        fold (total_work (complete_nth orc shell k r)). lia.
+  Qed.
+
+  Lemma work_zero_idle sls : total_work sls = O -> n_running sls = O.
+  Proof.
+    induction sls as [|s r IH]; [reflexivity|].
+    cbn [total_work fold_right]. fold (total_work r). intro H.
+    rewrite n_running_cons. destruct (is_running s) eqn:R.
+    - pose proof (running_work s R). lia.
+    - rewrite IH; lia.
+  Qed.
+
+  Lemma idle_work_zero sls : n_running sls = O -> total_work sls = O.
+  Proof.
+    induction sls as [|s r IH]; [reflexivity|].
+    rewrite n_running_cons. cbn [total_work fold_right]. fold (total_work r).
+    destruct (is_running s) eqn:R; [lia|]. intro H. rewrite (idle_work s R), IH; lia.
+  Qed.
+
+  Lemma idle_finish sls : Forall wf sls -> n_running sls = O -> map finish sls = sls.
+  Proof.
+    induction sls as [|s r IH]; intros W H; [reflexivity|].
+    inversion W as [|? ? Ws Wr]; subst. rewrite n_running_cons in H.
+    destruct (is_running s) eqn:R; [lia|].
+    cbn [map]. rewrite IH by (assumption || lia). rewrite finish_idle; [reflexivity|exact Ws|].
+    unfold is_running in R. destruct (sl_cur s); [discriminate|reflexivity].
+  Qed.
+
+  Lemma step_props k sls :
+    Forall wf sls ->
+    Forall wf (step orc shell k sls)
+    /\ map finish (step orc shell k sls) = map finish sls
+    /\ ((total_work sls = O /\ step orc shell k sls = sls)
+        \/ (total_work (step orc shell k sls) < total_work sls)%nat).
+  Proof.
+    intro W. unfold step. destruct (n_running sls) as [|n] eqn:N.
+    - split; [exact W|]. split; [reflexivity|]. left. split; [apply idle_work_zero, N|reflexivity].
+    - assert (K : (Nat.modulo k (S n) < n_running sls)%nat).
+      { rewrite N. apply Nat.mod_upper_bound. discriminate. }
+      destruct (complete_nth_props sls _ W K) as (A & B & C). auto.
+  Qed.
+
+  (** ** Confluence: every schedule drives the machine to the same final state *)
+  Lemma run_machine_finish : forall fuel sched sls,
+    Forall wf sls -> (total_work sls <= fuel)%nat ->
+    run_machine orc shell fuel sched sls = map finish sls.
+  Proof.
+    induction fuel as [|f IH]; intros sched sls W H.
+    - cbn [run_machine]. symmetry. apply idle_finish; [exact W|]. apply work_zero_idle. lia.
+    - cbn [run_machine].
+      assert (G : forall k t, run_machine orc shell f t (step orc shell k sls) = map finish sls).
+      { intros k t. destruct (step_props k sls W) as (A & B & [[Z E]|L]).
+        - rewrite E. apply IH; [exact W|lia].
+        - rewrite <- B. apply IH; [exact A|lia]. }
+      destruct sched as [|k t]; apply G.
+  Qed.
+
+  Lemma init_slots_wf ks : Forall wf (init_slots orc ks).
+  Proof.
+    unfold init_slots. apply Forall_forall. intros s H.
+    apply in_flat_map in H. destruct H as (k & _ & H).
+    apply in_map_iff in H. destruct H as (e & E & _). subst s. apply begin_wf.
+  Qed.
+
+  (** the final state of the whole step, without any schedule *)
+  Definition final_slots (ks : list acmd) : list slot := map finish (init_slots orc ks).
+
+  Lemma machine_final sched ks :
+    run_machine orc shell (total_work (init_slots orc ks)) sched (init_slots orc ks) = final_slots ks.
+  Proof. apply run_machine_finish; [apply init_slots_wf|lia]. Qed.
+End MachineProofs.
+
+(** * Part 3 — what the concurrent steps report, for every schedule *)
+Lemma map_flat_map {A B C} (f : B -> C) (g : A -> list B) l :
+  map f (flat_map g l) = flat_map (fun x => map f (g x)) l.
+Proof. induction l as [|a r IH]; [reflexivity|]. cbn. rewrite map_app, IH. reflexivity. Qed.
+
+Lemma flat_map_pairs {K E S B} (h : K -> list E) (g : K -> E -> S) (f : S -> list B) ks :
+  flat_map f (flat_map (fun k => map (g k) (h k)) ks)
+  = flat_map (fun p => f (g (fst p) (snd p))) (flat_map (fun k => map (pair k) (h k)) ks).
+Proof.
+  induction ks as [|k r IH]; [reflexivity|].
+  cbn [flat_map]. rewrite !flat_map_app, IH. f_equal.
+  induction (h k) as [|e t IHt]; [reflexivity|]. cbn. rewrite IHt. reflexivity.
+Qed.
+
+Lemma flat_map_nil_iff {A B} (f : A -> list B) l :
+  flat_map f l = [] <-> Forall (fun x => f x = []) l.
+Proof.
+  induction l as [|a r IH]; cbn; [split; auto|].
+  split.
+  - intro H. apply app_eq_nil in H. destruct H as [H1 H2]. constructor; [exact H1|apply IH, H2].
+  - intro H. inversion H; subst. rewrite H2. cbn. apply IH. assumption.
+Qed.
+
+Section AsyncProofs.
+  Variable orc : oracle.
+  Variable shell : bool.
+
+  Lemma ser_spec_closed k cs :
+    ser_spec orc shell (ac_save k) (ac_text k) cs
+    = map (fun c => (c, aresult orc shell k c)) (upto_bad orc cs).
+  Proof.
+    induction cs as [|c r IH]; [reflexivity|].
+    cbn [ser_spec upto_bad]. unfold aresult at 1, exit_zero.
+    destruct (orc c) as [rc o e|n m] eqn:O.
+    - destruct (Z.eqb rc 0); cbn [map]; unfold aresult; rewrite O; [rewrite IH|]; reflexivity.
+    - cbn [map]. unfold aresult. rewrite O. reflexivity.
+  Qed.
+
+  Definition is_ser (e : aentry) : bool := match e with AOne _ => false | ASer _ => true end.
+
+  (** the final slot of entry [e] of Command [k] *)
+  Definition fslot (k : acmd) (e : aentry) : slot :=
+    mkSlot (ac_save k) (ac_text k) (is_ser e)
+           (map (fun c => (c, aresult orc shell k c)) (upto_bad orc (entry_cmds e))) None [].
+
+  Lemma finish_init k e : finish orc shell (init_slot orc k e) = fslot k e.
+  Proof.
+    unfold init_slot. rewrite begin_finish. unfold finished, fslot. cbn.
+    rewrite ser_spec_closed. destruct e; reflexivity.
+  Qed.
+
+  Lemma final_slots_closed ks :
+    final_slots orc shell ks = map (fun p => fslot (fst p) (snd p)) (aentries ks).
+  Proof.
+    unfold final_slots, init_slots, aentries. rewrite !map_flat_map.
+    apply flat_map_ext. intro k. rewrite !map_map. apply map_ext. intro e. apply finish_init.
+  Qed.
+
+  Lemma flat_map_final {B} (f : slot -> list B) ks :
+    flat_map f (final_slots orc shell ks) = flat_map (fun p => f (fslot (fst p) (snd p))) (aentries ks).
+  Proof.
+    rewrite final_slots_closed. induction (aentries ks) as [|p r IH]; [reflexivity|].
+    cbn. rewrite IH. reflexivity.
+  Qed.
+
+  Lemma fslot_started k e : slot_started (fslot k e) = upto_bad orc (entry_cmds e).
+  Proof.
+    unfold slot_started, fslot. cbn. rewrite app_nil_r, map_map. cbn. apply map_id.
+  Qed.
+
+  Lemma upto_bad_single c : upto_bad orc [c] = [c].
+  Proof. cbn. destruct (exit_zero orc c); reflexivity. Qed.
+
+  Lemma fslot_entry k e : slot_entry (fslot k e) = entry_out orc shell k e.
+  Proof.
+    unfold slot_entry, fslot, entry_out. destruct e as [c|l]; cbn [is_ser sl_ser sl_done entry_cmds].
+    - rewrite upto_bad_single. reflexivity.
+    - rewrite map_map. reflexivity.
+  Qed.
+
+  Lemma res_error_aresult k c : res_error (aresult orc shell k c) = afailure orc shell k c.
+  Proof.
+    unfold aresult, afailure, async_result, res_error. destruct (orc c) as [rc o e|n m]; reflexivity.
+  Qed.
+
+  Lemma fslot_errors k e :
+    slot_errors (fslot k e) = flat_map (afailure orc shell k) (upto_bad orc (entry_cmds e)).
+  Proof.
+    unfold slot_errors, fslot. cbn [sl_done].
+    induction (upto_bad orc (entry_cmds e)) as [|c r IH]; [reflexivity|].
+    cbn. rewrite IH, res_error_aresult. reflexivity.
+  Qed.
+
+  Lemma init_started k e : slot_started (init_slot orc k e) = entry_head e.
+  Proof.
+    unfold init_slot, begin, entry_head, slot_started. destruct (entry_cmds e) as [|c r]; [reflexivity|].
+    destruct (orc c); reflexivity.
+  Qed.
+
+  (** ** closed forms of the four observables; none mentions the schedule *)
+  Lemma async_schedule_independent s1 s2 ks :
+    run_async_cmds orc shell s1 ks = run_async_cmds orc shell s2 ks.
+  Proof. unfold run_async_cmds. rewrite !machine_final. reflexivity. Qed.
+
+  Lemma async_started sched ks :
+    ob_started (run_async_cmds orc shell sched ks)
+    = flat_map (fun p => upto_bad orc (entry_cmds (snd p))) (aentries ks).
+  Proof.
+    unfold run_async_cmds. cbn [ob_started]. rewrite machine_final, flat_map_final.
+    apply flat_map_ext. intro p. apply fslot_started.
+  Qed.
+
+  Lemma async_wave sched ks :
+    ob_wave (run_async_cmds orc shell sched ks) = flat_map (fun p => entry_head (snd p)) (aentries ks).
+  Proof.
+    unfold run_async_cmds. cbn [ob_wave]. unfold init_slots, aentries.
+    rewrite flat_map_pairs. apply flat_map_ext. intro p. apply init_started.
+  Qed.
+
+  Lemma async_err sched ks :
+    ob_err (run_async_cmds orc shell sched ks)
+    = match all_failures orc shell ks with [] => NoError | l => Multi l end.
+  Proof.
+    unfold run_async_cmds. cbn [ob_err]. rewrite machine_final.
+    unfold async_raised, collect_errors. rewrite flat_map_final.
+    unfold all_failures.
+    rewrite (flat_map_ext _ _ (fun p => fslot_errors (fst p) (snd p))). reflexivity.
+  Qed.
+
+  Lemma async_out sched ks :
+    ob_out (run_async_cmds orc shell sched ks)
+    = if any_save ks
+      then OutList (flat_map (fun p => if ac_save (fst p) then [entry_out orc shell (fst p) (snd p)] else [])
+                             (aentries ks))
+      else OutUnset.
+  Proof.
+    unfold run_async_cmds. cbn [ob_out]. rewrite machine_final.
+    unfold async_cmdout, collect_results. rewrite flat_map_final.
+    destruct (any_save ks); [|reflexivity]. f_equal.
+    apply flat_map_ext. intro p. cbn [fslot sl_save]. rewrite fslot_entry. reflexivity.
+  Qed.
+
+  (** ** derived clauses *)
+  Lemma afailure_nil_iff k c : afailure orc shell k c = [] <-> exit_zero orc c = true.
+  Proof.
+    unfold afailure, exit_zero. destruct (orc c) as [rc o e|n m].
+    - destruct (Z.eqb rc 0); split; congruence.
+    - split; congruence.
+  Qed.
+
+  Lemma afailures_nil_iff k l :
+    flat_map (afailure orc shell k) l = [] <-> forallb (exit_zero orc) l = true.
+  Proof.
+    induction l as [|c r IH]; [cbn; tauto|].
+    cbn [flat_map forallb]. split.
+    - intro H. apply app_eq_nil in H. destruct H as [H1 H2].
+      apply afailure_nil_iff in H1. rewrite H1. apply IH, H2.
+    - intro H. apply andb_prop in H. destruct H as [H1 H2].
+      rewrite (proj2 (afailure_nil_iff k c) H1). apply IH, H2.
+  Qed.
+
+  Lemma async_ok_iff_ran_all_zero sched ks :
+    ob_err (run_async_cmds orc shell sched ks) = NoError <->
+    all_zero orc (ob_started (run_async_cmds orc shell sched ks)).
+  Proof.
+    rewrite async_err, async_started. unfold all_failures, all_zero.
+    induction (aentries ks) as [|p r IH].
+    - cbn. tauto.
+    - cbn [flat_map]. rewrite forallb_app.
+      destruct (flat_map (afailure orc shell (fst p)) (upto_bad orc (entry_cmds (snd p)))) as [|x t] eqn:F.
+      + apply afailures_nil_iff in F. rewrite F. cbn [app andb]. exact IH.
+      + cbn [app]. split; [discriminate|]. intro H. apply andb_prop in H. destruct H as [H _].
+        apply (afailures_nil_iff (fst p)) in H. congruence.
+  Qed.
+
+  Lemma async_error_is_one_multierror sched ks :
+    (all_failures orc shell ks = [] /\ ob_err (run_async_cmds orc shell sched ks) = NoError)
+    \/ (exists e l, all_failures orc shell ks = e :: l /\
+                    ob_err (run_async_cmds orc shell sched ks) = Multi (e :: l)).
+  Proof.
+    rewrite async_err. destruct (all_failures orc shell ks) as [|e l]; [left; auto|right; eauto].
+  Qed.
+
+  Lemma entry_head_started e c : In c (entry_head e) -> In c (upto_bad orc (entry_cmds e)).
+  Proof.
+    unfold entry_head. destruct (entry_cmds e) as [|c' r]; [intros []|].
+    intros [H|[]]. subst c'. cbn. destruct (exit_zero orc c); left; reflexivity.
+  Qed.
+
+  Lemma async_all_top_level_started sched ks k e c :
+    In k ks -> In e (entries k) -> In c (entry_head e) ->
+    In c (ob_wave (run_async_cmds orc shell sched ks))
+    /\ In c (ob_started (run_async_cmds orc shell sched ks)).
+  Proof.
+    intros Hk He Hc.
+    assert (Hp : In (k, e) (aentries ks)).
+    { unfold aentries. apply in_flat_map. exists k. split; [exact Hk|]. apply in_map, He. }
+    rewrite async_wave, async_started. split; apply in_flat_map; exists (k, e); split; auto.
+    apply entry_head_started, Hc.
+  Qed.
+End AsyncProofs.
